@@ -48,6 +48,9 @@ var (
 	ErrOptionsNil = errors.New("extract options is nil")
 	// ErrGetterNil is returned when a Getter is needed but is nil.
 	ErrGetterNil = errors.New("getter is nil")
+	// ErrNoObjectName is returned when no evidence carried a full-length launch measurement from which
+	// the endorsement's storage object name could be derived, so nothing can be fetched.
+	ErrNoObjectName = errors.New("no launch measurement to derive the endorsement object name from")
 	// ErrQuoteNil is returned when a Quote is needed but is nil.
 	ErrQuoteNil = errors.New("quote is nil")
 	// ErrUnknownFormat is returned when an attestation file cannot be decoded from any of the
@@ -154,16 +157,26 @@ func (opts *Options) fromEventLog() ([]byte, error) {
 	return nil, fmt.Errorf("matching sp800155 firmware manufacturer %v not found", opts.FirmwareManufacturer)
 }
 
+// The object name is derived whenever the attestation carries a full-length measurement, also when
+// the endorsement itself was found locally, so that a forced fetch asks for the right object. A
+// short (placeholder) measurement gives no name: nothing may be fetched for it.
 func fromSevSnpAttestationProto(at *spb.Attestation) ([]byte, string, error) {
-	if out, err := extractsev.FromAttestation(at); err == nil {
-		return out, "", nil
+	var objectName string
+	if meas := at.GetReport().GetMeasurement(); len(meas) == abi.MeasurementSize {
+		objectName = extractsev.GCETcbObjectName(sev.GCEUefiFamilyID, meas)
 	}
-	meas := at.GetReport().GetMeasurement()
-	return nil, extractsev.GCETcbObjectName(sev.GCEUefiFamilyID, meas), nil
+	if out, err := extractsev.FromAttestation(at); err == nil {
+		return out, objectName, nil
+	}
+	return nil, objectName, nil
 }
 
 func fromTdxAttestationProto(at *tpb.QuoteV4) string {
-	return extracttdx.GCETcbObjectName(at.GetTdQuoteBody().GetMrTd())
+	mrtd := at.GetTdQuoteBody().GetMrTd()
+	if len(mrtd) != tabi.MrTdSize {
+		return ""
+	}
+	return extracttdx.GCETcbObjectName(mrtd)
 }
 
 // Attestation will try to deserialize a given attestation in any of the supported formats and
@@ -289,6 +302,9 @@ func Endorsement(opts *Options) (out []byte, err error) {
 	// Then try the internet.
 	if opts.Getter == nil {
 		internetErr = ErrGetterNil
+	} else if objectName == "" {
+		// Never ask the bucket for a name that is not derived from a launch measurement.
+		internetErr = ErrNoObjectName
 	} else {
 		endorsement, internetErr = opts.Getter.Get(verify.GCETcbURL(objectName))
 		if internetErr == nil {
